@@ -301,6 +301,10 @@ class Run:
         self.level = 'proof'
         self.extra = {}
         self.verbose = bool(os.environ.get('VERIF_VERBOSE'))
+        if os.path.isdir(REPLAYS):
+            for fn in os.listdir(REPLAYS):
+                if fn.startswith(pid + '-'):
+                    os.remove(os.path.join(REPLAYS, fn))
 
     # ---- proofs ----
     def build(self):
